@@ -596,3 +596,44 @@ class PipeSpec(SeqSpec):
 
     def nontrivial(self, case, obs):
         return len(obs["obs"]) >= 1 and case["cfg"]["pipe"]["t"] != "src"
+
+
+class XSlicesAgreeSpec(SeqSpec):
+    """xslices.Chunk / xslices.Runs against the documented sequence function that the iterator and stream
+    versions are checked against (C07: the three versions agree)."""
+    component = "xs"
+    checkers = {}
+
+    def gen(self, rng, tier, scale):
+        n = int((300 if tier == "quick" else 5000) * scale)
+        g = PipeGen(rng, "iter", False)
+        cases = []
+        for _ in range(n):
+            l = g.vals()
+            if rng.random() < 0.5:
+                cases.append({"component": "xs", "ops": [], "cfg": {"fn": "chunk", "l": l, "n": rng.choice([1, 1, 2, 3, 5, len(l) + 1])}})
+            else:
+                cases.append({"component": "xs", "ops": [], "cfg": {"fn": "runs", "l": l, "r": g.rel()}})
+        return cases
+
+    def shrinkable(self):
+        return False
+
+    def coq_case(self, case, obs):
+        return ""
+
+    def oracle(self, case, obs):
+        cfg = case["cfg"]
+        l = cfg["l"]
+        if cfg["fn"] == "chunk":
+            exp = [l[i:i + cfg["n"]] for i in range(0, len(l), cfg["n"])]
+        else:
+            exp = runs_of(l, cfg["r"])
+        got = obs["obs"][0]
+        if got != ["lists", exp]:
+            return [("xslices-%s-disagrees-with-iterator" % cfg["fn"],
+                     "xslices.%s(%r, %r) = %r; the iterator/stream versions and the documentation give %r" % (cfg["fn"].capitalize(), l, cfg.get("n", cfg.get("r")), got, exp))]
+        return []
+
+    def nontrivial(self, case, obs):
+        return len(case["cfg"]["l"]) >= 1
